@@ -2,7 +2,7 @@
 The complete table behind `c13_substitution_rejected`: every non-zero single-sextet error pattern of a
 48-character friendly address (48 positions x 63 non-zero xor differences, as 36-byte patterns) has a
 non-zero CRC-16 syndrome.  Evaluated by the kernel with a fast Nat CRC (`crcN`), which Proofs/Address.lean
-proves equal to the bitwise spec.  Kept in its own file because it takes ~1-2 min to check.
+proves equal to the bitwise spec.  Kept in its own file because it takes ~1-2 min to check (12 lemmas of ~10 s).
 -/
 import TonVerif.Proofs.Base64
 
@@ -31,27 +31,52 @@ def syndOK (E : Bytes) : Bool :=
   E.drop 34 != [v / 256, v % 256]
 
 /-- TABLE OBLIGATION: all 48 x 63 non-zero single-sextet error patterns have a non-zero syndrome
-(complete enumeration, evaluated by the kernel; split in four ranges of positions). -/
-theorem syndrome_table_a : ∀ i, i < 12 → ∀ e, e < 64 → e ≠ 0 → syndOK (errPat i e) = true := by
+(complete enumeration, evaluated by the kernel; one lemma per quad of positions 4k .. 4k+3). -/
+theorem syndrome_table_0 : ∀ i, i < 4 → ∀ e, e < 64 → e ≠ 0 → syndOK (errPat (4 * 0 + i) e) = true := by
   decide +kernel
-theorem syndrome_table_b : ∀ i, i < 12 → ∀ e, e < 64 → e ≠ 0 → syndOK (errPat (12 + i) e) = true := by
+theorem syndrome_table_1 : ∀ i, i < 4 → ∀ e, e < 64 → e ≠ 0 → syndOK (errPat (4 * 1 + i) e) = true := by
   decide +kernel
-theorem syndrome_table_c : ∀ i, i < 12 → ∀ e, e < 64 → e ≠ 0 → syndOK (errPat (24 + i) e) = true := by
+theorem syndrome_table_2 : ∀ i, i < 4 → ∀ e, e < 64 → e ≠ 0 → syndOK (errPat (4 * 2 + i) e) = true := by
   decide +kernel
-theorem syndrome_table_d : ∀ i, i < 12 → ∀ e, e < 64 → e ≠ 0 → syndOK (errPat (36 + i) e) = true := by
+theorem syndrome_table_3 : ∀ i, i < 4 → ∀ e, e < 64 → e ≠ 0 → syndOK (errPat (4 * 3 + i) e) = true := by
+  decide +kernel
+theorem syndrome_table_4 : ∀ i, i < 4 → ∀ e, e < 64 → e ≠ 0 → syndOK (errPat (4 * 4 + i) e) = true := by
+  decide +kernel
+theorem syndrome_table_5 : ∀ i, i < 4 → ∀ e, e < 64 → e ≠ 0 → syndOK (errPat (4 * 5 + i) e) = true := by
+  decide +kernel
+theorem syndrome_table_6 : ∀ i, i < 4 → ∀ e, e < 64 → e ≠ 0 → syndOK (errPat (4 * 6 + i) e) = true := by
+  decide +kernel
+theorem syndrome_table_7 : ∀ i, i < 4 → ∀ e, e < 64 → e ≠ 0 → syndOK (errPat (4 * 7 + i) e) = true := by
+  decide +kernel
+theorem syndrome_table_8 : ∀ i, i < 4 → ∀ e, e < 64 → e ≠ 0 → syndOK (errPat (4 * 8 + i) e) = true := by
+  decide +kernel
+theorem syndrome_table_9 : ∀ i, i < 4 → ∀ e, e < 64 → e ≠ 0 → syndOK (errPat (4 * 9 + i) e) = true := by
+  decide +kernel
+theorem syndrome_table_10 : ∀ i, i < 4 → ∀ e, e < 64 → e ≠ 0 → syndOK (errPat (4 * 10 + i) e) = true := by
+  decide +kernel
+theorem syndrome_table_11 : ∀ i, i < 4 → ∀ e, e < 64 → e ≠ 0 → syndOK (errPat (4 * 11 + i) e) = true := by
   decide +kernel
 
 theorem syndrome_table (i : Nat) (hi : i < 48) (e : Nat) (he : e < 64) (h0 : e ≠ 0) :
     syndOK (errPat i e) = true := by
-  by_cases h1 : i < 12
-  · exact syndrome_table_a i h1 e he h0
-  · by_cases h2 : i < 24
-    · have := syndrome_table_b (i - 12) (by omega) e he h0
-      rwa [show 12 + (i - 12) = i by omega] at this
-    · by_cases h3 : i < 36
-      · have := syndrome_table_c (i - 24) (by omega) e he h0
-        rwa [show 24 + (i - 24) = i by omega] at this
-      · have := syndrome_table_d (i - 36) (by omega) e he h0
-        rwa [show 36 + (i - 36) = i by omega] at this
+  have h : i = 4 * (i / 4) + i % 4 := by omega
+  have hq : i / 4 < 12 := by omega
+  have hr : i % 4 < 4 := by omega
+  rw [h]
+  generalize i / 4 = q at hq
+  generalize i % 4 = r at hr
+  match q, hq with
+  | 0, _ => exact syndrome_table_0 r hr e he h0
+  | 1, _ => exact syndrome_table_1 r hr e he h0
+  | 2, _ => exact syndrome_table_2 r hr e he h0
+  | 3, _ => exact syndrome_table_3 r hr e he h0
+  | 4, _ => exact syndrome_table_4 r hr e he h0
+  | 5, _ => exact syndrome_table_5 r hr e he h0
+  | 6, _ => exact syndrome_table_6 r hr e he h0
+  | 7, _ => exact syndrome_table_7 r hr e he h0
+  | 8, _ => exact syndrome_table_8 r hr e he h0
+  | 9, _ => exact syndrome_table_9 r hr e he h0
+  | 10, _ => exact syndrome_table_10 r hr e he h0
+  | 11, _ => exact syndrome_table_11 r hr e he h0
 
 end TonVerif.Proofs.Address
